@@ -107,7 +107,7 @@ func runC11(c *Ctx) {
 		go func(i int, j job) {
 			defer wg.Done()
 			defer func() { <-sem }()
-			e := &crashEnv{c: c, sigPref: "Transaction:", spec: j.spec, batches: j.spec.gen(), o: j.spec.Opts.Options(),
+			e := &crashEnv{c: c, sigPref: "Transaction:", spec: j.spec, batches: j.spec.gen(), o: j.spec.options(),
 				maxDepth: c.Scale(1, 2), nestProb: [2]int{1, 12}, usable: 4}
 			cr := &crashRun{env: e, every: c.Scale(3, 1), maxImgs: c.Scale(2, 6), probeBlocked: true}
 			c.Guard("Transaction:crash-image:workload", j.spec, func() { cr.run(j.r) })
